@@ -43,6 +43,8 @@ pub struct GateSt {
     pub auto: bool,
     /// in auto mode: panic on every metric whose ordinal is not a multiple of this (0 = never panic)
     pub auto_panic: usize,
+    /// accept everything at once without recording it (to empty a very long queue at the end of a case)
+    pub discard: bool,
     pub entered: usize,
     pub log: Vec<(String, Outcome, ThreadId)>,
     pub handled: Vec<(u64, usize, ThreadId)>,
@@ -70,6 +72,7 @@ impl Gate {
                 release: None,
                 auto: false,
                 auto_panic: 0,
+                discard: false,
                 entered: 0,
                 log: vec![],
                 handled: vec![],
@@ -92,6 +95,9 @@ impl MetricSink for GatedSink {
         let o;
         {
             let mut st = self.gate.m.lock().unwrap();
+            if st.discard {
+                return Ok(metric.len());
+            }
             if st.caller_thread == Some(thread::current().id()) {
                 // the wrapped sink is being run on the scripting (caller's) thread: record it and do not wait in the gate
                 st.log.push((metric.to_string(), Outcome::Ok, thread::current().id()));
@@ -610,8 +616,64 @@ fn run_panic_soak(t: &[&str]) -> String {
     }
 }
 
+/// Bound of a large queue: `QB <cap> <extra>`: the worker is parked inside the wrapped sink with the first metric,
+/// then cap + extra more are emitted: exactly cap of them must be accepted (the bound holds for every capacity, not
+/// only for small ones).  observation: "acc <accepted after the first> ref <refused> q <queued()>"
+fn run_bound(t: &[&str]) -> String {
+    let cap: usize = t[1].parse().unwrap();
+    let extra: usize = t[2].parse().unwrap();
+    let rig = Rig::new(Some(cap), false);
+    let q = rig.handles[0].as_ref().unwrap().clone();
+    if q.emit("first:1|c").is_err() {
+        return "bad the first emit was refused".to_string();
+    }
+    // wait until the worker holds it inside the gate
+    let deadline = Instant::now() + Duration::from_secs(5);
+    loop {
+        let st = rig.gate.m.lock().unwrap();
+        if st.inside.is_some() || Instant::now() >= deadline {
+            break;
+        }
+        drop(st);
+        thread::sleep(Duration::from_micros(200));
+    }
+    let (mut acc, mut refused) = (0usize, 0usize);
+    for i in 0..cap + extra {
+        match q.emit(if i % 2 == 0 { "m:1|c" } else { "n:2|g" }) {
+            Ok(_) => acc += 1,
+            Err(_) => refused += 1,
+        }
+    }
+    let queued = q.queued();
+    {
+        let mut st = rig.gate.m.lock().unwrap();
+        st.discard = true;
+        st.auto = true;
+        rig.gate.cv.notify_all();
+    }
+    drop(q);
+    let mut rig = rig;
+    rig.handles.clear();
+    {
+        let deadline = Instant::now() + Duration::from_secs(20);
+        let mut st = rig.gate.m.lock().unwrap();
+        while !st.dropped {
+            let now = Instant::now();
+            if now >= deadline {
+                break;
+            }
+            let (g, _) = rig.gate.cv.wait_timeout(st, deadline - now).unwrap();
+            st = g;
+        }
+    }
+    format!("acc {} ref {} q {}", acc, refused, queued)
+}
+
 pub fn run_case(line: &str) -> String {
     let t: Vec<&str> = line.split_whitespace().collect();
+    if t[0] == "QB" {
+        return run_bound(&t);
+    }
     if t[0] == "QP" {
         return run_panic_soak(&t);
     }
@@ -769,7 +831,8 @@ pub fn run_case(line: &str) -> String {
         let idx = |m: &String| -> String {
             match rig.accepted.iter().position(|x| x == m) {
                 Some(i) => i.to_string(),
-                None => format!("?{}", m),
+                // a string that was never accepted: shown as hex (it may contain separators and newlines)
+                None => format!("?{}", crate::util::hex(m.as_bytes()).chars().take(80).collect::<String>()),
             }
         };
         let dl: Vec<String> = st
